@@ -8,7 +8,8 @@
    iter_index t it = number of items before position it (= distance from begin).
    All statements hold for every 1 <= maxCapacity <= 255, every capacityStep, blockCount, search strategy. *)
 From Coq Require Import ZArith List.
-From C02 Require Import BTreeModel BTreeParams BTreeBase SplitSeg IndexTable BTreeSearch BTreeIter BTreeAdd BTreeRemove BTreeCtx BTreeRemove2 BTreeTrack BTreeRemove3 BTreeRange BTreeTop BTreeHist BTreeRemoveTop BTreeRangeTop BTreeHist2 BTreeMerge BTreeFast BTreeFast2 BTreeInsRange BTreeHist3 NodeOps NodeScript BTreeDecide BTreeSplitGen GenPrimsC02 Gen_TreeFacts BTreeFastDecide BTreeSearchGen.
+From C02 Require Import BTreeModel BTreeParams BTreeBase SplitSeg IndexTable BTreeSearch BTreeIter BTreeAdd BTreeRemove BTreeCtx BTreeRemove2 BTreeTrack BTreeRemove3 BTreeRange BTreeTop BTreeHist BTreeRemoveTop BTreeRangeTop BTreeHist2 BTreeMerge BTreeFast BTreeFast2 BTreeInsRange BTreeHist3 NodeOps NodeScript BTreeDecide BTreeSplitGen GenPrimsC02 Gen_TreeFacts BTreeFastDecide BTreeSearchGen ProtoSyntaxC02 Gen_TreeProto ProtoSemC02 ProtoProofsC02.
+From Coq Require String.
 From MomoCommon Require Import GenPrelude.
 Import ListNotations.
 Local Open Scope Z_scope.
@@ -641,7 +642,7 @@ Theorem C02_rebalance_collapse_never_reads_a_destroyed_node :
   forall (ptr : Type) (child0 parent : ptr -> ptr)
          (ptr_eqb : ptr -> ptr -> bool), (forall a b, ptr_eqb a b = true <-> a = b) ->
   forall s : cstate ptr,
-    let s' := fold_left (exec ptr child0 parent ptr_eqb) collapse_body s in
+    let s' := fold_left (BTreeFastDecide.exec ptr child0 parent ptr_eqb) collapse_body s in
     ~ In (c_node ptr s) (c_dead ptr s) -> ~ In (child0 (c_root ptr s)) (c_dead ptr s) -> child0 (c_root ptr s) <> c_root ptr s ->
     c_dead ptr s' = c_root ptr s :: c_dead ptr s /\ c_root ptr s' = child0 (c_root ptr s) /\
     c_node ptr s' = (if ptr_eqb (c_node ptr s) (c_root ptr s) then child0 (c_root ptr s) else c_node ptr s) /\
@@ -691,6 +692,31 @@ Theorem C02_rebalance_climb_iteration_is_generated :
     if stop then (r', sp') else reb_loop rpp r' sp' fast.
 Proof. exact climb_iteration_is_model. Qed.
 Print Assumptions C02_rebalance_climb_iteration_is_generated.
+
+(* ===== growth round 5: deep embedding of the pointer-walking functions =====
+   Gen_TreeProto.v holds the statement trees of TreeSet::pvFindFirst(itemPred) (root-to-leaf descent) and of the iterator's operator++,
+   operator--, pvMoveIf, pvMove, dumped from the clang AST without interpretation (c02_proto.py).  ProtoSemC02.v interprets them: a
+   Node* is a path into the hand model's tree, pvFindFirst(node, pred) is the GENERATED in-node search. *)
+
+(* the REAL descent, run on any well-formed tree, returns exactly the hand model's find_first (hence GetLowerBound / GetUpperBound /
+   Find are the real code all the way down: in-node search generated, descent interpreted) *)
+Theorem C02_descent_is_generated :
+  forall (maxCap : nat) (linear : bool) (P : Z -> bool) (r : node), (1 <= maxCap <= 255)%nat ->
+  forall (calls : String.string -> env -> option env) d (e : env) w,
+    shape maxCap d r -> e k_mRootNode = Some (VPtr (Some [])) -> e k_itemPred = Some w ->
+    ret_of (ProtoSemC02.exec linear P r calls (16 + d) e pvFindFirst_descent) =
+    Some (let '(p, j) := find_first linear {| root := Some r; cnt := 0 |} P in VIt p j).
+Proof. exact descent_is_find_first. Qed.
+Print Assumptions C02_descent_is_generated.
+
+(* PARTIAL: the real operator++ / operator-- (with pvMoveIf / pvMove), interpreted with the same semantics, agree with the hand
+   model's next / prev at EVERY position of three concrete trees of height 2, two of which contain an empty leaf that pvMove has to
+   climb over.  The general equality is not proved yet. *)
+Theorem C02_iterator_steps_agree_on_examples_partial :
+  andb (andb (steps_agree ex_t0) (steps_agree ex_t1)) (steps_agree ex_t2) = true /\
+  existsb (fun x => match x with (true, 0%nat, _) => true | _ => false end) (shape_of ex_t1) = true /\ cnt ex_t0 = 10%nat.
+Proof. exact iter_steps_agree_on_examples. Qed.
+Print Assumptions C02_iterator_steps_agree_on_examples_partial.
 
 (* non-vacuity: a concrete reachable state (maxCapacity 2, ten insertions with duplicates) has height 2 *)
 Theorem C02_nonvacuous_example :
